@@ -80,8 +80,11 @@ private:
 }   // namespace
 
 uint32_t nextprime(uint32_t n) {
-    PrimesGenerator gen;
-    return gen.next_prime(n);
+    //test the candidates one by one: O(sqrt(n)) per candidate instead of generating every prime below n
+    while (!isprime(n)) {
+        ++n;
+    }
+    return n;
 }
 
 arr_int primes(uint32_t n) {
